@@ -32,6 +32,9 @@ func tgt1(context.Context, rA) {}
 func TestC03Reentrancy(t *testing.T) {
 	run := vk.New("C03", "reentrancy")
 	defer run.Finish()
+	if run.Shard == 0 {
+		closeDuringReplay(run)
+	}
 	sites := []string{"handler", "ctxhandler", "asynchandler", "filter", "before", "beforectx", "after", "afterctx", "replayhandler", "asyncduringshutdown", "syncduringshutdown", "panichandler", "replayphase|memory", "replayphase|memory-paged", "replayphase|sqlite-mem", "replayphase|sqlite-file", "replayphase|sqlite-batch2", "replayphase|durable"}
 	calls := []string{"pub-same", "pub-other", "subscribe", "subscribectx", "unsubscribe", "unsubscribe-self", "clear", "clearall", "has", "count"}
 	optss := []string{"-", "once", "sequential", "async+sequential"}
